@@ -104,6 +104,7 @@ type Conn struct {
 	readBuf        *bytes.Buffer
 	readLock       sync.Mutex
 	readReady      chan struct{}
+	readEnd        sync.Once
 	writeLock      sync.Mutex
 	readDeadline   time.Time
 	s              *xmpp.Session
@@ -276,12 +277,24 @@ func (c *Conn) Close() error {
 	// channel. (The serve loop is waiting for respReadCloser to be closed, so no
 	// packet is handled between the two steps.)
 	c.handler.rmStream(c.stanzaWriter.sid)
-	close(c.readReady)
+	c.endRead()
 	return respReadCloser.Close()
+}
+
+// endRead wakes a blocked Read for good; the stream must have been removed
+// from the handler before, so that no packet is signalled on the closed
+// channel.
+func (c *Conn) endRead() {
+	c.readEnd.Do(func() { close(c.readReady) })
 }
 
 func (c *Conn) closeNoNotify(t xmlstream.Encoder) error {
 	if c.closed.Swap(true) {
+		// A local Close is under way or has failed (its <close/> unanswered, a
+		// write error): the stream is then still registered and its reader still
+		// waiting.  The peer's close ends it all the same.
+		c.handler.rmStream(c.stanzaWriter.sid)
+		c.endRead()
 		return nil
 	}
 
@@ -292,7 +305,7 @@ func (c *Conn) closeNoNotify(t xmlstream.Encoder) error {
 	// can deliver, so it must not be waited for; it will find the stream closed
 	// on its next call.  What it had buffered is not sent: the peer has closed.
 	if !c.writeLock.TryLock() {
-		close(c.readReady)
+		c.endRead()
 		return nil
 	}
 	defer c.writeLock.Unlock()
@@ -306,7 +319,7 @@ func (c *Conn) closeNoNotify(t xmlstream.Encoder) error {
 		return err
 	}
 
-	close(c.readReady)
+	c.endRead()
 	return c.closeFlushFunc()
 }
 
